@@ -370,6 +370,111 @@ where
     kani::cover!(!cand && a.len_blockhash1 as usize == M && b.len_blockhash1 as usize == M);
 }
 
+/// C10, first half (no score computation): candidate <=> index-window sets intersect, through the general
+/// and the near_* forms; far pairs are never candidates.
+fn c10_cand_windows<const S2: usize, const M: usize>(alpha: u8, na: u8, nb: u8)
+where
+    BlockHashSize<S2>: ConstrainedBlockHashSize,
+    BlockHashSizes<64, S2>: ConstrainedBlockHashSizes,
+{
+    let (a, b) = any_pair::<S2, S2, M>(alpha, na, nb);
+    let ta = spec_target_m::<64, S2, M>(&a);
+    let same = spec_same_content::<S2, S2, M>(&a, &b);
+    let cand = ta.is_comparison_candidate::<64, S2>(&b);
+    assert!(cand == windows_intersect::<S2, S2, M>(&a, &b));
+    if na == nb {
+        assert!(ta.is_comparison_candidate_near_eq::<64, S2>(&b) == cand);
+    } else if na + 1 == nb {
+        assert!(ta.is_comparison_candidate_near_lt::<64, S2>(&b) == cand);
+    } else if nb + 1 == na {
+        assert!(ta.is_comparison_candidate_near_gt::<64, S2>(&b) == cand);
+    } else {
+        assert!(!cand);
+    }
+    let near = na == nb || na + 1 == nb || nb + 1 == na;
+    kani::cover!(!near || (cand && !same));
+    kani::cover!(!cand && a.len_blockhash1 as usize == M && b.len_blockhash1 as usize == M);
+}
+
+/// C10, second half: score > 0 <=> (same content or candidate); far => 0.
+fn c10_score_positive<const S2: usize, const M: usize>(alpha: u8, na: u8, nb: u8)
+where
+    BlockHashSize<S2>: ConstrainedBlockHashSize,
+    BlockHashSizes<64, S2>: ConstrainedBlockHashSizes,
+{
+    let (a, b) = any_pair::<S2, S2, M>(alpha, na, nb);
+    let ta = spec_target_m::<64, S2, M>(&a);
+    let same = spec_same_content::<S2, S2, M>(&a, &b);
+    let got = ta.compare::<64, S2>(&b);
+    let cand = ta.is_comparison_candidate::<64, S2>(&b);
+    assert!((got > 0) == (same || cand));
+    let near = na == nb || na + 1 == nb || nb + 1 == na;
+    assert!(near || got == 0);
+    kani::cover!(!near || (cand && !same));
+    kani::cover!(!cand && a.len_blockhash1 as usize == M && b.len_blockhash1 as usize == M);
+}
+
+/// equal block sizes with one of the two block hashes EMPTY on both sides: `which` = 1 keeps
+/// block hash 1 free (<= M symbols), `which` = 2 keeps block hash 2 free.  Both halves of C10 in one obligation
+/// per half, so that the near_eq route is exercised by the quick tier at a fraction of the cost of two free pairs.
+fn c10_eq_one_free<const M: usize>(n: u8, which: u8, half: u8) {
+    let (mut a, mut b) = any_pair::<32, 32, M>(64, n, n);
+    // concretely empty (and therefore still valid): symbolic execution prunes the second block-hash comparison
+    if which == 1 {
+        a.len_blockhash2 = 0;
+        b.len_blockhash2 = 0;
+        a.blockhash2 = [0; 32];
+        b.blockhash2 = [0; 32];
+    } else {
+        a.len_blockhash1 = 0;
+        b.len_blockhash1 = 0;
+        a.blockhash1 = [0; 64];
+        b.blockhash1 = [0; 64];
+    }
+    let ta = spec_target_m::<64, 32, M>(&a);
+    let same = spec_same_content::<32, 32, M>(&a, &b);
+    let cand = ta.is_comparison_candidate::<64, 32>(&b);
+    if half == 0 {
+        assert!(cand == windows_intersect::<32, 32, M>(&a, &b));
+        assert!(ta.is_comparison_candidate_near_eq::<64, 32>(&b) == cand);
+    } else {
+        let got = ta.compare::<64, 32>(&b);
+        assert!((got > 0) == (same || cand));
+        assert!(!same || got == 100);
+    }
+    kani::cover!(cand && !same);
+    kani::cover!(!cand && (a.len_blockhash1 as usize == M || a.len_blockhash2 as usize == M));
+}
+#[kani::proof]
+#[kani::unwind(66)]
+fn c10_w_s_m8_eq1_3() { c10_eq_one_free::<8>(3, 1, 0) }
+#[kani::proof]
+#[kani::unwind(66)]
+fn c10_w_s_m8_eq2_30() { c10_eq_one_free::<8>(30, 2, 0) }
+#[kani::proof]
+#[kani::unwind(66)]
+fn c10_p_s_m8_eq1_30() { c10_eq_one_free::<8>(30, 1, 1) }
+#[kani::proof]
+#[kani::unwind(66)]
+fn c10_p_s_m8_eq2_3() { c10_eq_one_free::<8>(3, 2, 1) }
+#[kani::proof]
+#[kani::unwind(66)]
+fn c10_w_s_m8_3_3() { c10_cand_windows::<32, 8>(64, 3, 3) }
+#[kani::proof]
+#[kani::unwind(66)]
+fn c10_w_s_m8_3_4() { c10_cand_windows::<32, 8>(64, 3, 4) }
+#[kani::proof]
+#[kani::unwind(66)]
+fn c10_w_s_m8_30_29() { c10_cand_windows::<32, 8>(64, 30, 29) }
+#[kani::proof]
+#[kani::unwind(66)]
+fn c10_p_s_m7a4_3_3() { c10_score_positive::<32, 7>(4, 3, 3) }
+#[kani::proof]
+#[kani::unwind(66)]
+fn c10_p_s_m8_3_4() { c10_score_positive::<32, 8>(64, 3, 4) }
+#[kani::proof]
+#[kani::unwind(66)]
+fn c10_p_s_m8_30_29() { c10_score_positive::<32, 8>(64, 30, 29) }
 #[kani::proof]
 #[kani::unwind(66)]
 fn c10_c_s_m7a4_3_3() { c10_candidate::<32, 7>(4, 3, 3) }
